@@ -13,9 +13,11 @@ RULE = ("objects built by random setter histories with arguments of DESIGN.md 5.
 BL = b" \t\x0b\x0c\r"
 
 
-def value54(rng, g, d):
+def value54(rng, g, d, single=False):
     """a value with an unambiguous textual form"""
     r = rng.random()
+    if single:
+        r = min(r, 0.7)
     if r < 0.15:
         return b""
     l0 = g.plain_value(allow_empty=False)
@@ -89,6 +91,16 @@ def parsed(rng, sid):
     s = Scenario(sid, {"kind": "parsed", "d": d, "c": c, "content": content})
     s.file(b"/in.conf", content)
     s.add("RF", 0, h(b"/in.conf"), h(d), h(c))
+    # a parsed object changed through the setters before it is written: new group-less keys, new sections, overwritten keys
+    if rng.random() < 0.35:
+        s.meta["kind"] = "parsed_then_set"
+        for _ in range(rng.randint(1, 4)):
+            sec = rng.choice([None, b"", g.section_name().strip(BL) or b"S"])
+            if sec and (sec[:1] == b"[" or sec == NONE):
+                sec = None
+            # single-line values: the key may be one of the file's, whose entry can carry a trailing comment (5.4: a comment
+            # after the value on single-line entries only)
+            s.add("SET", 0, "str", h(sec), h(g.key()), h(value54(rng, g, d, single=True)))
     return finish(s, d, c)
 
 
@@ -126,7 +138,7 @@ def oracle(s, lines):
         return None
     raws = parse_raws(lines)
     if len(raws) < 2 or raws[0].null:
-        return None if s.meta["kind"] == "parsed" and lines and not lines[0].startswith("rf E0") else "object not built"
+        return None if s.meta["kind"].startswith("parsed") and lines and not lines[0].startswith("rf E0") else "object not built"
     if not any(l == "w E0" for l in lines):
         return "writing failed"
     if raws[1].null:
